@@ -21,7 +21,17 @@ CRATES = {
     'mimium_lang': 'crates/lib/mimium-lang',
     'state_tree': 'crates/lib/mimium-lang/state-tree',
     'mimium_scheduler': 'crates/lib/plugins/mimium-scheduler',
+    'mimium_audiodriver': 'crates/lib/plugins/mimium-audiodriver',
+    'mimium_cli': 'crates/bin/mimium-cli',
 }
+# crates whose MIR every program-level check loads: the runtimes, the state tree and the driver-facing runtime wrapper
+# (VmDspRuntime in mimium-audiodriver; WasmDspRuntime lives in mimium-lang)
+PROG_CRATES = ('mimium_lang', 'state_tree', 'mimium_audiodriver')
+
+
+def prog_mirs(extra=()):
+    return [dump_mir(c)[0] for c in PROG_CRATES + tuple(extra)]
+
 
 
 def log(*a):
@@ -62,8 +72,11 @@ def dump_mir(crate):
     if crate != 'state_tree':
         # dependants see their dependencies' sources too
         roots.append(os.path.join(REPO, CRATES['state_tree'], 'src'))
-    if crate == 'mimium_scheduler':
+    if crate in ('mimium_scheduler', 'mimium_audiodriver', 'mimium_cli'):
         roots.append(os.path.join(REPO, CRATES['mimium_lang'], 'src'))
+    if crate == 'mimium_cli':
+        roots.append(os.path.join(REPO, CRATES['mimium_audiodriver'], 'src'))
+        roots.append(os.path.join(REPO, CRATES['mimium_scheduler'], 'src'))
     h = hashlib.sha256()
     for r_ in roots:
         if os.path.isdir(r_):
